@@ -778,7 +778,7 @@ pub fn replay(doc: &Value) -> i32 {
 pub fn dump_case(env: &Env, run: u64, case: usize, signal: u64) -> i32 {
     let thorough = env.thorough;
     let corpus: Vec<(String, Vec<u8>)> = gen::corpus(false).into_iter().filter(|(_, b)| b.len() < if thorough { 60_000 } else { 3_000 }).collect();
-    let n_gen = if thorough { env.scaled(400_000) } else { env.scaled(700) };
+    let n_gen = if thorough { env.scaled(150_000) } else { env.scaled(700) };
     let Some(plan) = plan_run(env.seed, thorough, run, &corpus, n_gen) else {
         eprintln!("cannot rebuild run {}", run);
         return 2;
@@ -808,7 +808,7 @@ pub fn main(env: &Env) -> i32 {
     let thorough = env.thorough;
     let corpus: Vec<(String, Vec<u8>)> =
         gen::corpus(false).into_iter().filter(|(_, b)| b.len() < if thorough { 60_000 } else { 3_000 }).collect();
-    let n_gen = if thorough { env.scaled(400_000) } else { env.scaled(700) };
+    let n_gen = if thorough { env.scaled(150_000) } else { env.scaled(700) };
     let n_total = n_gen + corpus.len() as u64;
     rep.exhaustive = !thorough;
     rep.rule = if thorough {
